@@ -316,6 +316,11 @@ def _strip(problem: str) -> str:
     return problem.split(":")[0]
 
 
+def _plabel(pname: str) -> str:
+    """parameter set as it appears in signatures: the overlapping-list variants are one family."""
+    return "overlapping-lists" if pname.startswith("overlap-") else pname
+
+
 def run_item(item: tuple[Any, ...]) -> Any:
     from vf.engine.runner import Result
     from vf.ref import c13_model as ref
@@ -345,9 +350,9 @@ def run_item(item: tuple[Any, ...]) -> Any:
         mand_services = params.get("mandatory_services", [0x10])
         rp = {"kind": "model", "pname": pname, "params": params, "seed": d["seed"]}
         for prob in ref.session_graph_ok(m, mand_sessions, mand_services):
-            res.violate(f"C16|model|{_strip(prob)}|params={pname}", f"seed {d['seed']} params {pname}: {prob}; model {d['model']}", rp)
+            res.violate(f"C16|model|{_strip(prob)}|params={_plabel(pname)}", f"seed {d['seed']} params {pname}: {prob}; model {d['model']}", rp)
         if not d["setup_twice_same_model"]:
-            res.violate(f"C16|model|setup-twice-differs|params={pname}", f"seed {d['seed']}: two setups in one process give different models", rp)
+            res.violate(f"C16|model|setup-twice-differs|params={_plabel(pname)}", f"seed {d['seed']}: two setups in one process give different models", rp)
         res.count("models_checked")
         res.notes.setdefault("sessions_histogram", {})[str(len(m.services))] = 1
         if d["seed"] == 3 and pname == "default":
@@ -444,9 +449,9 @@ def replay(doc: dict[str, Any]) -> Any:
         print("    model:", d["model"])
         m = ref.Model({int(s, 16): {int(k, 16): v for k, v in dd.items()} for s, dd in d["model"].items()})
         for prob in ref.session_graph_ok(m, params.get("mandatory_sessions", [1]), params.get("mandatory_services", [0x10])):
-            res.violate(f"C16|model|{_strip(prob)}|params={pname}", prob, doc)
+            res.violate(f"C16|model|{_strip(prob)}|params={_plabel(pname)}", prob, doc)
         if not d["setup_twice_same_model"]:
-            res.violate(f"C16|model|setup-twice-differs|params={pname}", "two setups differ", doc)
+            res.violate(f"C16|model|setup-twice-differs|params={_plabel(pname)}", "two setups differ", doc)
         return res
     env = tuple(doc["env"])
     what, text = _first_difference(pname, params, seed, ENVS_QUICK[0], env, doc.get("max_sessions"), doc.get("model_only", False))
